@@ -1,0 +1,19 @@
+//go:build verif
+// +build verif
+
+package bluge
+
+import "github.com/blugelabs/bluge/index"
+
+// VerifIndexConfig exposes the index configuration carried by a Config
+// (verification builds only).
+func (config Config) VerifIndexConfig() index.Config {
+	return config.indexConfig
+}
+
+// VerifWithIndexConfig returns a copy of config using the given index
+// configuration (verification builds only).
+func (config Config) VerifWithIndexConfig(ic index.Config) Config {
+	config.indexConfig = ic
+	return config
+}
